@@ -13,9 +13,10 @@ OK, VIOL, UNDEC, KNOWN = "ok", "violation", "undecided", "known-finding"
 
 
 class Ob:
-    __slots__ = ("rule", "where", "what", "verdict", "reason", "line", "nontrivial", "canon")
+    __slots__ = ("rule", "where", "what", "verdict", "reason", "line", "nontrivial", "canon", "alt")
 
     def __init__(self, rule, where, what, verdict, reason="", line=None, nontrivial=True, canon=None):
+        self.alt = None  # constructs in mutually exclusive arms of one test that compute the same thing share this key
         self.canon = canon  # the construct with the names of locals abstracted ($1, $2 ...): stable under renaming
         self.rule = rule
         self.where = where  # "module:qualname"
@@ -72,8 +73,10 @@ class Report:
     def ok(self, rule, where, what, reason="", line=None, nontrivial=True):
         return self._add(Ob(rule, where, what, OK, reason, line, nontrivial))
 
-    def violation(self, rule, where, what, reason="", line=None, canon=None):
-        return self._add(Ob(rule, where, what, VIOL, reason, line, canon=canon))
+    def violation(self, rule, where, what, reason="", line=None, canon=None, alt=None):
+        ob = Ob(rule, where, what, VIOL, reason, line, canon=canon)
+        ob.alt = alt
+        return self._add(ob)
 
     def undecided(self, rule, where, what, reason="", line=None):
         return self._add(Ob(rule, where, what, UNDEC, reason, line))
@@ -122,6 +125,14 @@ class Report:
                         known_hit.append((ob, e))
                         free.remove(e)
                         break
+        # the same construct spelled once per arm of a switch (an in-place form and an allocating form of one division) is
+        # one finding: the alternatives of an absorbed construct - same rule, function, canonical form, exclusive arms - go with it
+        for ob in cand:
+            if ob.verdict == VIOL and ob.alt is not None and ob.canon is not None:
+                twin = next(((o2, e2) for o2, e2 in known_hit if o2.alt == ob.alt and (o2.rule, o2.where, o2.canon) == (ob.rule, ob.where, ob.canon)), None)
+                if twin is not None:
+                    ob.verdict = KNOWN
+                    known_hit.append((ob, twin[1]))
         viols = [o for o in self.obs if o.verdict == VIOL]
         undec = [o for o in self.obs if o.verdict == UNDEC]
         for ob, e in known_hit:
